@@ -1,0 +1,246 @@
+//go:build verif
+
+// Contracts for package avltree (comment-only; read by /verif/engine, never compiled into the package).
+
+package avltree
+
+//@ -- ghost state (DESIGN.md §3.4): as for the red-black tree; C0/C1 are Children[0]/Children[1]
+//@ ghost field Tree.nodes map like Root
+//@ ghost field Tree.rank mapfrom Comparator int
+//@ ghost field Node.tr ptr Tree
+//@ ghost field Node.pos int
+//@ ghost field Node.a int
+//@ ghost field Node.b int
+//@ ghost field Node.h int
+
+//@ pred SWO(c, w) := (forall x like w, y like w :: (c(x, y) < 0 <==> c(y, x) > 0))
+//@     && (forall x like w, y like w, z like w :: c(x, y) <= 0 && c(y, z) <= 0 ==> c(x, z) <= 0)
+
+//@ pred LC(t, x) := x.tr == t ==> x != nil && x.a <= x.pos && x.pos <= x.b && 0 <= x.pos && x.pos < t.size && t.nodes[x.pos] == x
+//@     && (x.Children[0] == nil ==> x.a == x.pos) && (x.Children[0] != nil ==> x.Children[0].tr == t && x.Children[0].Parent == x && x.Children[0].a == x.a && x.Children[0].b == x.pos - 1)
+//@     && (x.Children[1] == nil ==> x.b == x.pos) && (x.Children[1] != nil ==> x.Children[1].tr == t && x.Children[1].Parent == x && x.Children[1].a == x.pos + 1 && x.Children[1].b == x.b)
+//@     && (x.Parent == nil ==> x == t.Root && x.a == 0 && x.b == t.size - 1)
+//@     && (x.Parent != nil ==> x.Parent.tr == t && (x.Parent.Children[0] == x || x.Parent.Children[1] == x))
+//@ pred ShapeInv(t) := t != nil && t.size >= 0 && (t.size == 0 <==> t.Root == nil) && (t.Root != nil ==> t.Root.tr == t && t.Root.Parent == nil)
+//@     && (forall x like t.Root :: LC(t, x))
+//@     && (forall i :: 0 <= i && i < t.size ==> t.nodes[i].tr == t && t.nodes[i].pos == i)
+//@ pred KeyAt(t, i) := t.nodes[i].Key
+//@ pred ValAt(t, i) := t.nodes[i].Value
+//@ pred OrderInv(t) := t.Comparator != nil && SWO(t.Comparator, argof(t.Comparator, 0))
+//@     && (forall i, j :: 0 <= i && i < j && j < t.size ==> t.Comparator(t.nodes[i].Key, t.nodes[j].Key) < 0)
+//@     && (forall k like argof(t.Comparator, 0), i :: 0 <= i && i < t.size && t.Comparator(k, t.nodes[i].Key) == 0 ==> t.rank[k] == i)
+//@ -- balance (C07): ghost height h, stored balance factor b = h(right) - h(left), |b| <= 1
+//@ pred Hc(c) := ite(c == nil, 0, c.h)
+//@ pred BalInv(t) := forall x like t.Root :: x.tr == t ==> x.h == 1 + max(Hc(x.Children[0]), Hc(x.Children[1])) && x.b == Hc(x.Children[1]) - Hc(x.Children[0]) && 0 - 1 <= x.b && x.b <= 1
+//@ pred Inv(t) := ShapeInv(t) && OrderInv(t) && BalInv(t)
+//@ pred Has(t, k) := 0 <= t.rank[k] && t.rank[k] < t.size && t.Comparator(k, t.nodes[t.rank[k]].Key) == 0
+//@ pred Val(t, k) := t.nodes[t.rank[k]].Value
+
+//@ func NewWith
+//@   requires comparator != nil && SWO(comparator, argof(comparator, 0))
+//@   modifies nothing
+//@   ensures [C01 C02 C07 C15 C17] fresh(result) && Inv(result) && result.size == 0 && result.Comparator == comparator
+
+//@ func Tree.GetNode
+//@   requires Inv(tree)
+//@   modifies nothing
+//@   ensures [C01 C17 C18] (result != nil) == Has(tree, key) && (result != nil ==> result == tree.nodes[tree.rank[key]] && result.tr == tree)
+//@   loop 1:
+//@     invariant n != nil ==> n.tr == tree
+//@     invariant n != nil ==> (forall i :: 0 <= i && i < n.a ==> tree.Comparator(key, tree.nodes[i].Key) > 0)
+//@     invariant n != nil ==> (forall i :: n.b < i && i < tree.size ==> tree.Comparator(key, tree.nodes[i].Key) < 0)
+//@     invariant n == nil ==> (forall i :: 0 <= i && i < tree.size ==> tree.Comparator(key, tree.nodes[i].Key) != 0)
+//@     decreases ite(n != nil, n.b - n.a + 1, 0)
+
+//@ func Tree.Get
+//@   requires Inv(tree)
+//@   modifies nothing
+//@   ensures [C01 C17 C18] found == Has(tree, key) && (found ==> value == Val(tree, key)) && (!found ==> value == zero(value))
+
+//@ func Tree.Empty
+//@   requires ShapeInv(tree)
+//@   modifies nothing
+//@   ensures [C15 C17 C18] result == (tree.size == 0)
+
+//@ func Tree.Size
+//@   requires ShapeInv(tree)
+//@   modifies nothing
+//@   ensures [C01 C15 C17 C18] result == tree.size && result >= 0
+
+//@ func Tree.Clear
+//@   requires tree != nil && tree.Comparator != nil && SWO(tree.Comparator, argof(tree.Comparator, 0))
+//@   modifies tree.Root, tree.size
+//@   modifies each x like tree.Root where x.tr == tree : x.tr
+//@   at exit: all Node.tr := \x like tree.Root => ite(x.tr == tree, nil, x.tr)
+//@   ensures [C01 C15 C17] Inv(tree) && tree.size == 0 && tree.Comparator == old(tree.Comparator)
+
+//@ func Tree.bottom
+//@   requires ShapeInv(tree) && (d == 0 || d == 1)
+//@   modifies nothing
+//@   ensures (tree.size == 0 ==> result == nil) && (tree.size > 0 && d == 0 ==> result == tree.nodes[0]) && (tree.size > 0 && d == 1 ==> result == tree.nodes[tree.size - 1])
+//@   loop 1:
+//@     invariant n != nil && n.tr == tree && (d == 0 ==> n.a == 0) && (d == 1 ==> n.b == tree.size - 1) && c == n.Children[d]
+//@     decreases n.b - n.a
+
+//@ func Tree.Left
+//@   requires ShapeInv(tree)
+//@   modifies nothing
+//@   ensures [C02 C17 C18] (tree.size == 0 ==> result == nil) && (tree.size > 0 ==> result == tree.nodes[0])
+
+//@ func Tree.Right
+//@   requires ShapeInv(tree)
+//@   modifies nothing
+//@   ensures [C02 C17 C18] (tree.size == 0 ==> result == nil) && (tree.size > 0 ==> result == tree.nodes[tree.size - 1])
+
+//@ func Tree.Floor
+//@   requires Inv(tree)
+//@   modifies nothing
+//@   ensures [C02 C17 C18] found ==> floor != nil && floor.tr == tree && tree.Comparator(floor.Key, key) <= 0
+//@     && (forall i :: floor.pos < i && i < tree.size ==> tree.Comparator(tree.nodes[i].Key, key) > 0)
+//@   ensures [C02 C17 C18] !found ==> floor == nil && (forall i :: 0 <= i && i < tree.size ==> tree.Comparator(tree.nodes[i].Key, key) > 0)
+//@   loop 1:
+//@     invariant (found ==> floor != nil && floor.tr == tree && tree.Comparator(key, floor.Key) > 0) && (n != nil ==> n.tr == tree)
+//@     invariant n != nil ==> n.a == ite(found, floor.pos + 1, 0)
+//@     invariant n != nil ==> (forall i :: n.b < i && i < tree.size ==> tree.Comparator(key, tree.nodes[i].Key) < 0)
+//@     invariant n == nil ==> (forall i :: ite(found, floor.pos + 1, 0) <= i && i < tree.size ==> tree.Comparator(key, tree.nodes[i].Key) < 0)
+//@     decreases ite(n != nil, n.b - n.a + 1, 0)
+
+//@ func Tree.Ceiling
+//@   requires Inv(tree)
+//@   modifies nothing
+//@   ensures [C02 C17 C18] found ==> floor != nil && floor.tr == tree && tree.Comparator(floor.Key, key) >= 0
+//@     && (forall i :: 0 <= i && i < floor.pos ==> tree.Comparator(tree.nodes[i].Key, key) < 0)
+//@   ensures [C02 C17 C18] !found ==> floor == nil && (forall i :: 0 <= i && i < tree.size ==> tree.Comparator(tree.nodes[i].Key, key) < 0)
+//@   loop 1:
+//@     invariant (found ==> floor != nil && floor.tr == tree && tree.Comparator(key, floor.Key) < 0) && (n != nil ==> n.tr == tree)
+//@     invariant n != nil ==> n.b == ite(found, floor.pos - 1, tree.size - 1)
+//@     invariant n != nil ==> (forall i :: 0 <= i && i < n.a ==> tree.Comparator(key, tree.nodes[i].Key) > 0)
+//@     invariant n == nil ==> (forall i :: 0 <= i && i <= ite(found, floor.pos - 1, tree.size - 1) ==> tree.Comparator(key, tree.nodes[i].Key) > 0)
+//@     decreases ite(n != nil, n.b - n.a + 1, 0)
+
+//@ -- in-order successor (a == 1) / predecessor (a == 0) of a node
+//@ func Node.walk1
+//@   requires (a == 0 || a == 1) && (n != nil ==> n.tr != nil && ShapeInv(n.tr))
+//@   modifies nothing
+//@   ensures n == nil ==> result == nil
+//@   ensures n != nil && a == 1 ==> (n.pos == n.tr.size - 1 ==> result == nil) && (n.pos < n.tr.size - 1 ==> result == n.tr.nodes[n.pos + 1])
+//@   ensures n != nil && a == 0 ==> (n.pos == 0 ==> result == nil) && (n.pos > 0 ==> result == n.tr.nodes[n.pos - 1])
+//@   loop 1:
+//@     invariant n != nil && n.tr == n0.tr && (a == 1 ==> n.a == n0.pos + 1) && (a == 0 ==> n.b == n0.pos - 1)
+//@     decreases n.b - n.a
+//@   loop 2:
+//@     invariant n != nil && n.tr == n0.tr && p == n.Parent && (a == 1 ==> n.b == n0.pos) && (a == 0 ==> n.a == n0.pos)
+//@     decreases n0.tr.size - (n.b - n.a)
+
+//@ func Node.Next
+//@   requires n != nil ==> n.tr != nil && ShapeInv(n.tr)
+//@   modifies nothing
+//@   ensures [C08] n == nil ==> result == nil
+//@   ensures [C08] n != nil ==> (n.pos == n.tr.size - 1 ==> result == nil) && (n.pos < n.tr.size - 1 ==> result == n.tr.nodes[n.pos + 1])
+
+//@ func Node.Prev
+//@   requires n != nil ==> n.tr != nil && ShapeInv(n.tr)
+//@   modifies nothing
+//@   ensures [C08] n == nil ==> result == nil
+//@   ensures [C08] n != nil ==> (n.pos == 0 ==> result == nil) && (n.pos > 0 ==> result == n.tr.nodes[n.pos - 1])
+
+//@ func Tree.Keys
+//@   requires ShapeInv(tree)
+//@   modifies nothing
+//@   ensures [C01 C02 C15 C16 C17 C18] fresh(arr(result)) && len(result) == tree.size && (forall j :: 0 <= j && j < tree.size ==> result[j] == KeyAt(tree, j))
+//@   loop 1:
+//@     invariant ItInv(it) && fresh(it) && it.tree == tree && Cur(it) == i - 1 && 0 <= i && len(keys) == tree.size && fresh(arr(keys))
+//@     invariant forall j :: 0 <= j && j < i ==> keys[j] == KeyAt(tree, j)
+//@     decreases tree.size - i
+
+//@ func Tree.Values
+//@   requires ShapeInv(tree)
+//@   modifies nothing
+//@   ensures [C01 C02 C15 C16 C17 C18] fresh(arr(result)) && len(result) == tree.size && (forall j :: 0 <= j && j < tree.size ==> result[j] == ValAt(tree, j))
+//@   loop 1:
+//@     invariant ItInv(it) && fresh(it) && it.tree == tree && Cur(it) == i - 1 && 0 <= i && len(values) == tree.size && fresh(arr(values))
+//@     invariant forall j :: 0 <= j && j < i ==> values[j] == ValAt(tree, j)
+//@     decreases tree.size - i
+
+// ---- iterator: a cursor over positions -1..n of the in-order sequence (C08) ----
+
+//@ pred Cur(it) := ite(it.position == 0, 0 - 1, ite(it.position == 2, it.tree.size, it.node.pos))
+//@ pred ItInv(it) := it != nil && it.tree != nil && ShapeInv(it.tree) && 0 <= it.position && it.position <= 2 && (it.position == 1 ==> it.node.tr == it.tree) && (it.position != 1 ==> it.node == nil)
+
+//@ func Tree.Iterator
+//@   requires ShapeInv(tree)
+//@   modifies nothing
+//@   ensures [C08 C17 C18] fresh(result) && ItInv(result) && result.tree == tree && Cur(result) == 0 - 1
+
+//@ func Iterator.Next
+//@   requires ItInv(iterator)
+//@   modifies iterator.node, iterator.position
+//@   ensures [C08 C17] ItInv(iterator) && Cur(iterator) == min(old(Cur(iterator)) + 1, iterator.tree.size)
+//@   ensures [C08] result == (0 <= Cur(iterator) && Cur(iterator) < iterator.tree.size)
+
+//@ func Iterator.Prev
+//@   requires ItInv(iterator)
+//@   modifies iterator.node, iterator.position
+//@   ensures [C08 C17] ItInv(iterator) && Cur(iterator) == max(old(Cur(iterator)) - 1, 0 - 1)
+//@   ensures [C08] result == (0 <= Cur(iterator) && Cur(iterator) < iterator.tree.size)
+
+//@ func Iterator.Key
+//@   requires ItInv(iterator) && iterator.position == 1
+//@   modifies nothing
+//@   ensures [C08 C17 C18] result == KeyAt(iterator.tree, Cur(iterator))
+
+//@ func Iterator.Value
+//@   requires ItInv(iterator) && iterator.position == 1
+//@   modifies nothing
+//@   ensures [C08 C17 C18] result == ValAt(iterator.tree, Cur(iterator))
+
+//@ func Iterator.Node
+//@   requires ItInv(iterator)
+//@   modifies nothing
+//@   ensures [C08 C17 C18] result == iterator.node
+
+//@ func Iterator.Begin
+//@   requires ItInv(iterator)
+//@   modifies iterator.node, iterator.position
+//@   ensures [C08 C17] ItInv(iterator) && Cur(iterator) == 0 - 1
+
+//@ func Iterator.End
+//@   requires ItInv(iterator)
+//@   modifies iterator.node, iterator.position
+//@   ensures [C08 C17] ItInv(iterator) && Cur(iterator) == iterator.tree.size
+
+//@ func Iterator.First
+//@   requires ItInv(iterator)
+//@   modifies iterator.node, iterator.position
+//@   ensures [C08 C17] ItInv(iterator) && Cur(iterator) == 0 && result == (iterator.tree.size > 0)
+
+//@ func Iterator.Last
+//@   requires ItInv(iterator)
+//@   modifies iterator.node, iterator.position
+//@   ensures [C08 C17] ItInv(iterator) && Cur(iterator) == iterator.tree.size - 1 && result == (iterator.tree.size > 0)
+
+//@ func Iterator.NextTo
+//@   requires ItInv(iterator) && f != nil
+//@   modifies iterator.node, iterator.position
+//@   ensures [C08 C17] ItInv(iterator)
+//@   ensures [C08] found: result ==> old(Cur(iterator)) < Cur(iterator) && Cur(iterator) < iterator.tree.size && f(KeyAt(iterator.tree, Cur(iterator)), ValAt(iterator.tree, Cur(iterator)))
+//@     && (forall j :: old(Cur(iterator)) < j && j < Cur(iterator) ==> !f(KeyAt(iterator.tree, j), ValAt(iterator.tree, j)))
+//@   ensures [C08] notfound: !result ==> Cur(iterator) == iterator.tree.size && (forall j :: old(Cur(iterator)) < j && j < iterator.tree.size ==> !f(KeyAt(iterator.tree, j), ValAt(iterator.tree, j)))
+//@   loop 1:
+//@     invariant ItInv(iterator) && old(Cur(iterator)) <= Cur(iterator)
+//@     invariant forall j :: old(Cur(iterator)) < j && j <= Cur(iterator) && j < iterator.tree.size ==> !f(KeyAt(iterator.tree, j), ValAt(iterator.tree, j))
+//@     decreases iterator.tree.size - Cur(iterator)
+
+//@ func Iterator.PrevTo
+//@   requires ItInv(iterator) && f != nil
+//@   modifies iterator.node, iterator.position
+//@   ensures [C08 C17] ItInv(iterator)
+//@   ensures [C08] found: result ==> 0 <= Cur(iterator) && Cur(iterator) < old(Cur(iterator)) && f(KeyAt(iterator.tree, Cur(iterator)), ValAt(iterator.tree, Cur(iterator)))
+//@     && (forall j :: Cur(iterator) < j && j < old(Cur(iterator)) ==> !f(KeyAt(iterator.tree, j), ValAt(iterator.tree, j)))
+//@   ensures [C08] notfound: !result ==> Cur(iterator) == 0 - 1 && (forall j :: 0 <= j && j < old(Cur(iterator)) ==> !f(KeyAt(iterator.tree, j), ValAt(iterator.tree, j)))
+//@   loop 1:
+//@     invariant ItInv(iterator) && Cur(iterator) <= old(Cur(iterator))
+//@     invariant forall j :: Cur(iterator) <= j && j < old(Cur(iterator)) && 0 <= j ==> !f(KeyAt(iterator.tree, j), ValAt(iterator.tree, j))
+//@     decreases Cur(iterator) + 1
+
+
